@@ -161,6 +161,26 @@ Proof.
     apply construct_class in H. destruct H as [<- _]. now rewrite is_instance_self.
 Qed.
 
+(* the None arm of an Optional never converts: it returns its input or raises TypeError *)
+Lemma none_id v v' : coerce_basic T W sac CNone v = Ok v' -> v' = v.
+Proof.
+  unfold coerce_basic. destruct (is_instance T v CNone); [now inversion 1|].
+  destruct (check_coercible T sac v CNone); discriminate.
+Qed.
+
+Lemma none_err v e : coerce_basic T W sac CNone v = Err e -> e = ETypeError.
+Proof.
+  unfold coerce_basic. destruct (is_instance T v CNone); [discriminate|].
+  destruct (check_coercible T sac v CNone) as [u|e'] eqn:E; [cbn; now inversion 1|].
+  inversion 1; subst. unfold check_coercible in E. destruct (_ && _); [discriminate|].
+  unfold check_type_coercible, check_type_coercible_gen in E.
+  assert (forall crit, exists m, matches_criteria T (SCls (class_of v)) CNone crit = Ok m) as Hm.
+  { induction crit as [|[x y] crit [m Hm]]; cbn; [eauto|]. rewrite Hm. eauto. }
+  destruct (cls_eqb _ _); [discriminate|]. destruct (sac && _); [discriminate|].
+  destruct (Hm (t_coercible T)) as [m1 E1]. rewrite E1 in E. destruct m1; [|now inversion E].
+  destruct (Hm (t_not_coercible T)) as [m2 E2]. rewrite E2 in E. destruct m2; [now inversion E|discriminate].
+Qed.
+
 Lemma forallb_dedupe (p : val -> bool) l : forallb p l = true -> forallb p (dedupe l []) = true.
 Proof.
   rewrite !forallb_forall. intros H x Hx. apply dedupe_incl in Hx. destruct Hx as [Hx|[]]. auto.
@@ -258,7 +278,28 @@ Proof.
     unfold coerce_dict. change CDict with (class_of (VDict d)) at 1. rewrite enter_self.
     now rewrite (dict_res_fixed _ _ d [] Hnd Hfix).
   - destruct fr; (eapply coerce_seq_idem; [cbn; tauto|apply IHa, U|exact H]).
-  - discriminate.
+  - (* Optional[...] *)
+    destruct ts as [|a [|b [|c r]]]; try discriminate.
+    inversion IHts as [|? ? IHa' IHr]; subst. inversion IHr as [|? ? IHb' _]; subst.
+    cbn [first_ok] in *.
+    apply orb_true_iff in U. destruct U as [U|U]; apply andb_true_iff in U; destruct U as [Un Uf].
+    + (* [a; None] *)
+      destruct b as [[]| | | | | | |]; try discriminate. cbn [coerce] in *.
+      destruct (coerce T W sac a v) as [y|e] eqn:Ea.
+      * inversion H; subst. now rewrite (IHa' Uf _ _ Ea).
+      * destruct e; try discriminate.
+        destruct (coerce_basic T W sac CNone v) as [y|e] eqn:En; [|destruct e; discriminate].
+        inversion H; subst. pose proof (none_id _ _ En) as ->. now rewrite Ea, En.
+    + (* [None; b] *)
+      destruct a as [[]| | | | | | |]; try discriminate. cbn [coerce] in *.
+      destruct (coerce_basic T W sac CNone v) as [y|e] eqn:En.
+      * inversion H; subst. pose proof (none_id _ _ En) as ->. now rewrite En.
+      * destruct e; try discriminate.
+        destruct (coerce T W sac b v) as [y|e] eqn:Eb; [|destruct e; discriminate].
+        inversion H; subst.
+        destruct (coerce_basic T W sac CNone v') as [y|e] eqn:En'.
+        -- now rewrite (none_id _ _ En').
+        -- rewrite (none_err _ _ En'). now rewrite (IHb' Uf _ _ Eb).
   - eapply coerce_multi_idem; [apply IHa, U|exact H].
 Qed.
 
